@@ -35,6 +35,15 @@ Section PopEquiv.
   Theorem merge_aligned p q : aligned p -> aligned q -> aligned (gen_merge p q).
   Proof. unfold aligned, gen_merge. cbn [pg pf]. rewrite !app_length. lia. Qed.
 
+  (* from_individuals / to_individuals: an individual's genome and fitness stay one row, in order, both ways *)
+  Theorem from_individuals_rows (inds : list (G * Z)) : rows_of (gen_from_individuals inds) = inds /\ aligned (gen_from_individuals inds).
+  Proof.
+    unfold rows_of, aligned, gen_from_individuals. cbn [pg pf]. rewrite !map_length. split; [|reflexivity].
+    induction inds as [|[g z] r IH]; cbn; [reflexivity|now rewrite IH].
+  Qed.
+  Theorem to_individuals_rows p : gen_to_individuals p = rows_of p.
+  Proof. reflexivity. Qed.
+
   (* Population.topk = the model topk on the fitness keys, same indices for the genomes *)
   Theorem topk_fits mx p k order : aligned p -> pf (gen_topk gdef mx p k order) = topk mx k (pf p) order.
   Proof.
